@@ -7,6 +7,7 @@ the model in Model/Number.lean + Model/F64.lean, which the correspondence harnes
 -/
 import TeraModel.Lemmas.F64Cmp
 import TeraModel.Lemmas.Pow
+import TeraModel.Lemmas.RoundNat
 namespace Tera.C13
 open Tera
 
@@ -487,6 +488,17 @@ theorem C13_pow_exact (F : FloatOps) {a b : Value} {x y : Int} (h : IntOperands 
       have : ¬ inI128 (x ^ y.toNat) := pow_big_not_inI128 x y.toNat (by omega) (by omega)
       simp [this]
 
+/-- **C13 (integer → float conversion).** When an integer operand meets a float operand it is
+converted to the float `± m · 2^e` nearest to it, ties to even (small integers exactly): this is
+the `as f64` the float contagion theorems refer to. -/
+theorem C13_int_to_float_nearest (i : Int) :
+    ∃ m e : Nat, Number.toFloat (.int i) = .fin (decide (i < 0)) m (e : Int) ∧
+      2 * (((i.natAbs : Nat) : Int) - (m : Int) * (2 ^ e : Nat)).natAbs ≤ 2 ^ e ∧
+      (2 * (((i.natAbs : Nat) : Int) - (m : Int) * (2 ^ e : Nat)).natAbs = 2 ^ e → m % 2 = 0) ∧
+      (F64.bitLen i.natAbs ≤ 53 → m = i.natAbs ∧ e = 0) := by
+  refine ⟨(F64.roundNat i.natAbs).1, (F64.roundNat i.natAbs).2, ?_, roundNat_nearest i.natAbs⟩
+  simp [Number.toFloat, F64.ofIntRNE]
+
 /-! Non-vacuity and spot checks of the arithmetic theorems (kernel-evaluated on the model). -/
 example : IntOperands (.i64 (-7)) (.u128 3) (-7) 3 :=
   ⟨⟨rfl, by simp only [Value.scalarWF, inI64, I64_MIN, I64_MAX]; omega⟩,
@@ -495,5 +507,8 @@ example : IntOperands (.i64 (-7)) (.u128 3) (-7) 3 :=
 example : ((-7 : Int) / 3 = -3) ∧ ((-7 : Int) % 3 = 2) := by decide
 example : checkedRemEuclid I128_MIN (-1) = none := by decide +kernel
 example : checkedPow (-1) 4294967297 = some (-1) := by decide +kernel
+-- 2^53 + 1 is a tie and rounds to the even significand 2^52 (times 2); 2^53 + 3 rounds up
+example : F64.roundNat (2^53 + 1) = (2^52, 1) := by decide +kernel
+example : F64.roundNat (2^53 + 3) = (2^52 + 2, 1) := by decide +kernel
 
 end Tera.C13
